@@ -618,10 +618,15 @@ func (fa *funcAn) syncOp(call ssa.CallInstruction) (op string, class int, base s
 	switch n.Obj().Name() {
 	case "Mutex", "RWMutex":
 		switch fn.Name() {
-		case "Lock", "RLock":
+		case "Lock":
 			return "lock", fa.e.class(t+"."+f, Mutex), b, true
-		case "Unlock", "RUnlock":
+		case "Unlock":
 			return "unlock", fa.e.class(t+"."+f, Mutex), b, true
+		case "RLock":
+			// the shared mode is a class of its own ("…#r"): it protects reads against writers, never writes
+			return "lock", fa.e.class(t+"."+f+"#r", Mutex), b, true
+		case "RUnlock":
+			return "unlock", fa.e.class(t+"."+f+"#r", Mutex), b, true
 		}
 	case "WaitGroup":
 		switch fn.Name() {
